@@ -45,8 +45,9 @@ ENC = {
     "replace.js": lambda x: b'"' + wm(x) + b'".replace(/' + MARK + b'/g,"")',
     "caret": lambda x: b"c^md /c " + x,
     "psbytes": lambda x: b",".join(b"%d" % c for c in x),
+    "psbytesZ": lambda x: b", ".join(b"%03d" % c for c in x),
 }
-KINDS = [k for k in ENC if k != "psbytes"]
+KINDS = [k for k in ENC if not k.startswith("psbytes")]
 PAYLOADS = [
     (b"plain text payload without indicators 12345", []),
     (b"fetch 10.20.30.40 and 172.16.5.9 now", [("network.ip", b"10.20.30.40"), ("network.ip", b"172.16.5.9")]),
@@ -54,6 +55,9 @@ PAYLOADS = [
     (b"get http://evil-site.net/malware.exe now", [("network.url", b"http://evil-site.net/malware.exe")]),
     (b"mail admin@example.org about /usr/local/bin/tool", [("network.email", b"admin@example.org"), ("path", b"/usr/local/bin/tool")]),
     (b"abcdefghij klmnopqrs tuvwxyz 0123456789", []),
+    # an undecoded indicator nested inside another, closely followed by a further one
+    (b"run /tmp/payload/evil.exe 10.1.2.3 now", [("path", b"/tmp/payload/evil.exe"), ("network.ip", b"10.1.2.3")]),
+    (b"to administrator@evil-site.com 10.1.2.3 C:\\Users\\Public\\a.dll", [("network.email", b"administrator@evil-site.com"), ("network.ip", b"10.1.2.3")]),
     (b"x", []),
     (b"short1", []),
 ]
@@ -96,6 +100,8 @@ def proposals(tier: str, rng: random.Random) -> list[tuple]:
     # byte arrays need >= 501 numbers: a long inner text
     long_payload = (b"get http://evil-site.net/malware.exe now; " * 14)[:560]
     out.append((("psbytes",), long_payload))
+    out.append((("psbytesZ",), long_payload))
+    out.append((("psbytesZ", "FromBase64String"), long_payload[:505]))
     out.append((("b64", "psbytes"), long_payload[:390]))
     # a byte array directly under the layer kinds whose text stays short, and above a few others (TLC re-encodes these:
     # kept small because every layer multiplies the length)
